@@ -13,6 +13,7 @@ import itertools
 
 import explore
 import obs
+import producers
 import term
 from explore import Problem, ViolationError
 from lattice import Dim, base_opts, build_args, deviations
@@ -195,14 +196,22 @@ class Headers(Problem):
         n, mi, i = ps
         if mi is None:
             return self._choices(0)
+        if mi == "C":
+            # the next commit's block (`git log -p`), directly after the last file of the previous commit
+            if i < len(producers.COMMIT_BLOCK):
+                return [(producers.COMMIT_BLOCK[i], (n, "C", i + 1), "commit")]
+            return self._choices(n + 1)
         lines, spec = self.sec(mi, n)
         if i < len(lines):
             return [(lines[i], (n, mi, i + 1), "line")]
-        return self._choices(n + 1)
+        out = self._choices(n + 1)
+        if out and self.src == "git":
+            out.append((producers.COMMIT_BLOCK[0], (n, "C", 1), "commit"))
+        return out
 
     def can_end(self, ps):
         n, mi, i = ps
-        return mi is None or i >= len(self.sec(mi, n)[0])
+        return mi is None or mi == "C" or i >= len(self.sec(mi, n)[0])
 
     def _rows(self, model, out, n, spec, own_hunk_line):
         pend_file, nfile, pend_hunk, prev = model
@@ -258,6 +267,9 @@ class Headers(Problem):
 
     def step(self, model, line, kind, out, ps):
         n, mi, i = ps
+        if mi == "C":
+            # rows written while the commit block passes belong to the section before it (its pending header)
+            return self._rows(model, out, n, None, False)
         lines, spec = self.sec(mi, n)
         pend_file, nfile, pend_hunk, prev = model
         if kind == "first":
@@ -289,7 +301,7 @@ class Headers(Problem):
         n, mi, i = ps
         if mi is None:
             return
-        lines, spec = self.sec(mi, n)
+        spec = None if mi == "C" else self.sec(mi, n)[1]
         m2 = self._rows(model, out, n, spec, False)
         if m2[0] is not None and not self.ocfg.get("file_omit"):
             raise ViolationError("missing-file-header:" + m2[0][1]["event"],
